@@ -95,6 +95,20 @@ var externPredImpl = map[string]func(string) bool{
 	"net.ParseIP.nil":             func(s string) bool { return net.ParseIP(s) == nil },
 }
 
+// the exported util predicates the harness can call for real; only those that are also translated (facts.json:
+// tables.util_preds) are compared, so a predicate added to or leaving the fragment changes nothing here
+var utilPredImpl = map[string]func(*x509.Certificate) bool{
+	"CommonNameIsIP": util.CommonNameIsIP, "DNSNamesExist": util.DNSNamesExist, "HasKeyUsageOID": util.HasKeyUsageOID, "IsCACert": util.IsCACert,
+	"IsDelegatedOCSPResponderCert": util.IsDelegatedOCSPResponderCert, "IsIndividualValidatedCertificate": util.IsIndividualValidatedCertificate,
+	"IsLegacySMIMECertificate": util.IsLegacySMIMECertificate, "IsMailboxValidatedCertificate": util.IsMailboxValidatedCertificate,
+	"IsMultipurposeSMIMECertificate": util.IsMultipurposeSMIMECertificate, "IsOrganizationValidatedCertificate": util.IsOrganizationValidatedCertificate,
+	"IsRootCA": util.IsRootCA, "IsSMIMEBRCertificate": util.IsSMIMEBRCertificate, "IsSelfSigned": util.IsSelfSigned, "IsServerAuthCert": util.IsServerAuthCert,
+	"IsSponsorValidatedCertificate": util.IsSponsorValidatedCertificate, "IsStrictSMIMECertificate": util.IsStrictSMIMECertificate, "IsSubCA": util.IsSubCA,
+	"IsSubscriberCert": util.IsSubscriberCert, "HasEmailSAN": util.HasEmailSAN, "IsEmailProtectionCert": util.IsEmailProtectionCert,
+	"IsOnionV2Cert": util.IsOnionV2Cert, "IsOnionV3Cert": util.IsOnionV3Cert,
+}
+var utilPredNames []string // translated ∩ callable, sorted
+
 var bodyExternFns, bodyExternPreds []string
 var bodyExternPaths map[string]bool // fields on whose strings some rule applies an external function
 
@@ -206,11 +220,21 @@ func loadBodyFacts() (names []string, fields []bodyField, err error) {
 			ExternFns   []string          `json:"body_extern_fns"`
 			ExternPreds []string          `json:"body_extern_preds"`
 			ExternPaths []string          `json:"body_extern_paths"`
+			UtilPreds   []struct {
+				Name string `json:"name"`
+			} `json:"util_preds"`
 		} `json:"tables"`
 	}
 	if err := json.Unmarshal(data, &f); err != nil {
 		return nil, nil, err
 	}
+	utilPredNames = nil
+	for _, u := range f.Tables.UtilPreds {
+		if utilPredImpl[u.Name] != nil {
+			utilPredNames = append(utilPredNames, u.Name)
+		}
+	}
+	sort.Strings(utilPredNames)
 	bodyStatuses = map[string][]string{}
 	var walk func(t interface{}, into map[string]bool)
 	walk = func(t interface{}, into map[string]bool) {
@@ -500,8 +524,28 @@ func subBodies(out string, seed uint64, tier string, arg string) {
 					replayOf(&Obj{Kind: "cert", Name: origin, DER: c.Raw}, map[string]interface{}{"lint": n, "status": lint.LintStatus(st).String()})})
 			}
 		}
-		fmt.Fprintln(wo, line)
-		fmt.Fprintln(wi, strings.Join(toks, ","))
+		upLine, upToks := ".", ""
+		if len(utilPredNames) > 0 {
+			upLine = strings.Join(utilPredNames, ",")
+			var vs []string
+			for _, n := range utilPredNames {
+				vs = append(vs, func() (r string) {
+					defer func() {
+						if recover() != nil {
+							r = "P"
+						}
+					}()
+					if utilPredImpl[n](c) {
+						return "1"
+					}
+					return "0"
+				}())
+			}
+			upToks = ";" + strings.Join(vs, ",")
+			rep.count("util-predicates-compared")
+		}
+		fmt.Fprintln(wo, line+"\t"+upLine)
+		fmt.Fprintln(wi, strings.Join(toks, ",")+upToks)
 		rep.Evaluations += len(names)
 		rep.distinctKey(line)
 		rep.count("origin:" + origin)
